@@ -122,7 +122,14 @@ func TestVerifReplayC20(t *testing.T) {
 		}
 		os.WriteFile(trace, nil, 0o644)
 		w.eventsWg.Add(1)
-		w.handle(fsnotify.Event{Name: "some/file", Op: ops[ty]})
+		handled := make(chan struct{})
+		go func() { w.handle(fsnotify.Event{Name: "some/file", Op: ops[ty]}); close(handled) }()
+		select {
+		case <-handled:
+		case <-time.After(10 * time.Second):
+			fmt.Printf("REPLAY: reproduced: the handler of event %d (%s) did not return within 10 s\n", e, names[ty])
+			return
+		}
 		raw, _ := os.ReadFile(trace)
 		got := strings.TrimSpace(string(raw))
 		want := ""
@@ -151,6 +158,7 @@ func TestVerifReplayC20Loop(t *testing.T) {
 	}
 	var sc struct {
 		Args   []int64                `json:"args"`
+		Label  string                 `json:"label"`
 		Inputs map[string]interface{} `json:"inputs"`
 	}
 	json.Unmarshal(data, &sc)
@@ -187,17 +195,44 @@ func TestVerifReplayC20Loop(t *testing.T) {
 	returned := make(chan error, 1)
 	go func() { returned <- w.Run(r) }()
 	tys := make([]int, n)
-	for e := 0; e < n; e++ {
-		if f, ok := sc.Inputs[fmt.Sprintf("event.%d.type", e)].(float64); ok {
-			tys[e] = int(f)
+	// A counterexample to "served events leave the watcher as it was" is a one-step change of the
+	// watcher's state; whether it matters shows when the step is repeated: the scenario's events are
+	// delivered 40 times over, then one more subscribed event must still run the task.
+	rounds := 1
+	amplified := strings.Contains(sc.Label, "leave-the-watcher-as-it-was")
+	if amplified {
+		rounds = 40
+	}
+	for round := 0; round < rounds; round++ {
+		for e := 0; e < n; e++ {
+			if f, ok := sc.Inputs[fmt.Sprintf("event.%d.type", e)].(float64); ok {
+				tys[e] = int(f)
+			}
+			select {
+			case w.fsw.Events <- fsnotify.Event{Name: files[e], Op: ops[tys[e]]}:
+			case <-time.After(5 * time.Second):
+				fmt.Printf("REPLAY: reproduced: the watcher stopped taking events (event %d of round %d not received within 5 s)\n", e, round)
+				return
+			}
+			time.Sleep(1500 * time.Millisecond) // the handler of this event runs before the next one arrives
+		}
+	}
+	lastTy := -1
+	if amplified {
+		lastTy = 1 // write
+		for i := range names {
+			if sub[i] {
+				lastTy = i
+				break
+			}
 		}
 		select {
-		case w.fsw.Events <- fsnotify.Event{Name: files[e], Op: ops[tys[e]]}:
+		case w.fsw.Events <- fsnotify.Event{Name: files[3], Op: ops[lastTy]}:
+			time.Sleep(2500 * time.Millisecond)
 		case <-time.After(5 * time.Second):
-			fmt.Printf("REPLAY: reproduced: the watcher stopped taking events (event %d not received within 5 s)\n", e)
+			fmt.Printf("REPLAY: reproduced: after %d rounds of the scenario's events the watcher takes no further event\n", rounds)
 			return
 		}
-		time.Sleep(1500 * time.Millisecond) // the handler of this event runs before the next one arrives
 	}
 	closed := make(chan struct{})
 	go func() { w.Close(); close(closed) }()
@@ -218,6 +253,16 @@ func TestVerifReplayC20Loop(t *testing.T) {
 	time.Sleep(300 * time.Millisecond)
 	raw, _ := os.ReadFile(trace)
 	lines := strings.Split(strings.TrimSpace(string(raw)), "\n")
+	if amplified {
+		want := fmt.Sprintf("ran [%s] [%s]", names[lastTy], files[3])
+		found := false
+		for _, l := range lines {
+			found = found || l == want
+		}
+		if !found {
+			bad = append(bad, fmt.Sprintf("after %d rounds of the scenario's events a subscribed %s event no longer runs the task", rounds, names[lastTy]))
+		}
+	}
 	for e := 0; e < n; e++ {
 		line := fmt.Sprintf("ran [%s] [%s]", names[tys[e]], files[e])
 		ran := false
